@@ -406,6 +406,9 @@ class Elf(BinFormat):
         self.readsection(".dynamic")
         dynsym = self.readsection(".dynsym") or []
         dynstr = self.readsection(".dynstr")
+        if not isinstance(dynsym, list) or (dynstr and not isinstance(dynstr, StrTable)):
+            # sections named .dynsym/.dynstr but of another type
+            raise ElfError("dynamic symbol or string table section has a wrong type")
         if dynstr:
             for s in self.Shdr:
                 if s.sh_type in (SHT_REL, SHT_RELA):
